@@ -884,6 +884,20 @@ func ruleStatus(c *Ctx, a *tcpAnchors) {
 		g, _ := p.AllFrom(v, deepF, func(x ssa.Value) bool { return hcall != nil && x == ssa.Value(hcall) })
 		return g
 	}
+	// the error a connection ends with is that connection's own object: its fields are written only where it is built. An error
+	// object shared between connections and patched per use (e.g. one "replay" error per authenticator whose Status is set on
+	// each rejection) is read by the close report of one connection after another connection has rewritten it.
+	nf := 0
+	for _, fl := range p.StructFields("net.ConnectionError") {
+		nf++
+		for _, st := range p.FieldStores("net.ConnectionError", fl.Name()) {
+			if st.Val == nil && st.Fresh {
+				continue
+			}
+			c.CheckAt("STATUS", "connection-error-immutable:"+fl.Name()+":"+short(st.Fn), st.Ins, st.Fresh, "a field of an existing ConnectionError is overwritten: the error (and the status it carries to the close report) is shared state, not this connection's outcome")
+		}
+	}
+	c.Floor("STATUS", "fields of the connection error type", nf, 2)
 	for _, call := range oreg.FindCalls(func(_ string, call *ssa.Call) bool { return eng.MethodName(&call.Call) == "AddClosed" }) {
 		st := eng.Arg(&call.Call, 0)
 		good, bad := p.AllFrom(st, deepF, func(v ssa.Value) bool {
